@@ -84,6 +84,20 @@ fn main() {
         jobs.push(Job { args: a(&["flow", "--source", "none", "--tag-version", "1.2.3", "--bumped-branch", b, "--distance", d, "--schema", "standard-base-prerelease-post"]), stdin: None, cwds: any_cwd.clone(), clock_dependent: false, expect: Some(format!("1.2.4-alpha.{id}.post.{d}\n")), label: format!("flow-branch-id/{b}") });
         jobs.push(Job { args: a(&["flow", "--source", "none", "--tag-version", "1.2.3", "--bumped-branch", b, "--dirty", "--output-format", "pep440"]), stdin: None, cwds: any_cwd.clone(), clock_dependent: true, expect: None, label: format!("flow-dirty/{b}") });
     }
+    // flow in a *clean* state must not look at the wall clock at all: every branch kind (commit and tag post-mode, by rule and
+    // by flag), dirty unknown / false, distance absent / 0, sources none and stdin
+    for b in ["main", "develop", "release/2", "feature/x"] { for mode in [None, Some("tag"), Some("commit")] { for dirty in [None, Some("--no-dirty"), Some("--clean")] { for dist in [None, Some("0")] {
+        if dirty == Some("--clean") && dist.is_some() { continue; }
+        let mut args = a(&["flow", "--source", "none", "--tag-version", "1.2.3", "--bumped-branch", b]);
+        if let Some(m) = mode { args.extend(a(&["--post-mode", m])); }
+        if let Some(d) = dirty { args.push(d.into()); }
+        if let Some(d) = dist { args.extend(a(&["--distance", d])); }
+        jobs.push(Job { args, stdin: None, cwds: vec![any_cwd[0].clone()], clock_dependent: false, expect: Some("1.2.3\n".into()), label: format!("flow-clean/{b}/{mode:?}/{dirty:?}/{dist:?}") });
+    }}}}
+    for b in ["release/2", "main"] {
+        let sdoc = format!("(schema:(core:[var(Major),var(Minor),var(Patch)],extra_core:[var(Epoch),var(PreRelease),var(Post),var(Dev)],build:[]),vars:(major:Some(1),minor:Some(2),patch:Some(3),bumped_branch:Some(\"{b}\")))");
+        for fmt in ["semver", "zerv"] { jobs.push(Job { args: a(&["flow", "--source", "stdin", "--output-format", fmt]), stdin: Some(sdoc.clone()), cwds: vec![any_cwd[0].clone()], clock_dependent: false, expect: if fmt == "semver" { Some("1.2.3\n".into()) } else { None }, label: format!("flow-clean-stdin/{b}/{fmt}") }); }
+    }
     // stdin documents
     let doc = format!("(schema:(core:[var(ts(\"YYYY\")),var(ts(\"MM\")),var(ts(\"DD\")),var(Patch)],extra_core:[var(PreRelease)],build:[var(BumpedBranch)]),vars:(major:Some(1),patch:Some(4),pre_release:Some((label:Rc,number:Some(2))),bumped_branch:Some(\"İstanbul/ÉCOLE\"),last_timestamp:Some({}),custom:()))", midnight - 1);
     for fmt in ["semver", "pep440", "zerv"] { jobs.push(Job { args: a(&["version", "--source", "stdin", "--output-format", fmt]), stdin: Some(doc.clone()), cwds: any_cwd.clone(), clock_dependent: false, expect: if fmt == "semver" { Some("2024.3.15-4.rc.2+stanbul.COLE\n".into()) } else { None }, label: format!("stdin/{fmt}") }); }
